@@ -435,3 +435,92 @@ pub fn cmd_debug(input: &str) {
     println!("result {:?}", r);
     println!("{}", serde_json::to_string_pretty(&a.verif_state()).unwrap());
 }
+
+// ------------------------------------------------------------------ C11
+/// N fresh builds of the same program: the set of observed outcomes must be a
+/// subset of the spec's outcome set (binding) and a singleton (the property).
+fn replay_outcomes(idx: usize, case: &Value, n: usize) -> Value {
+    use rand::seq::SliceRandom;
+    use rand::SeedableRng;
+    let prog = &case["prog"];
+    let allowed: BTreeSet<String> = case["outcomes"].as_array().unwrap().iter().map(|x| x.as_str().unwrap().to_string()).collect();
+    let mut problems: Vec<String> = Vec::new();
+    let mut observed: BTreeSet<String> = BTreeSet::new();
+    let mut detail: BTreeSet<String> = BTreeSet::new();
+    let mut rng = rand::rngs::StdRng::seed_from_u64(keys::seed() ^ idx as u64);
+    let r = util::catch(|| {
+        let mut problems = Vec::new();
+        let mut observed = BTreeSet::new();
+        let mut detail = BTreeSet::new();
+        for i in 0..n {
+            // permute the insertion order of the facts every other run
+            let mut blocks: Vec<Value> = prog["blocks"].as_array().unwrap().clone();
+            if i % 2 == 1 {
+                for b in blocks.iter_mut() {
+                    let mut f = b["facts"].as_array().unwrap().clone();
+                    f.shuffle(&mut rng);
+                    b["facts"] = Value::Array(f);
+                }
+            }
+            let tok = match build_token(&blocks) {
+                Ok(t) => t,
+                Err(e) => {
+                    problems.push(format!("building the token failed: {e}"));
+                    break;
+                }
+            };
+            let mut a = match build_authorizer(&prog["authz"], &tok, big_limits()) {
+                Ok(a) => a,
+                Err(e) => {
+                    problems.push(format!("building the authorizer failed: {e}"));
+                    break;
+                }
+            };
+            let mut a2 = a.clone();
+            let r = a.authorize();
+            let r2 = a2.authorize();
+            if format!("{r:?}") != format!("{r2:?}") {
+                detail.insert(format!("clone differs: {r:?} vs {r2:?}"));
+            }
+            for r in [r, r2] {
+                let got = auth_result(&r);
+                if let Some(e) = got.get("error") {
+                    observed.insert("error".to_string());
+                    detail.insert(format!("error {}", e));
+                } else {
+                    observed.insert("result".to_string());
+                    detail.insert(format!("{}", got));
+                    let res = &case["res"];
+                    if got["policy"] != res["policy"] || got["ok"] != res["ok"] || listed_failed(&got["failed"]) != canon_failed(&res["failed"]) {
+                        problems.push(format!("error-free result {} differs from the spec's {}", got, json!({"policy": res["policy"], "ok": res["ok"], "failed": res["failed"]})));
+                    }
+                }
+            }
+        }
+        (problems, observed, detail)
+    });
+    match r {
+        Ok((p, o, d)) => {
+            problems.extend(p);
+            observed = o;
+            detail = d;
+        }
+        Err(p) => problems.push(format!("PANIC {p}")),
+    }
+    if !observed.is_subset(&allowed) {
+        problems.push(format!("OUTSIDE-SPEC: observed outcomes {:?} but the spec allows only {:?}", observed, allowed));
+    }
+    let nondet = detail.len() > 1;
+    json!({"idx": idx, "ok": problems.is_empty(), "problems": problems, "observed": observed, "allowed": allowed,
+           "nondeterministic": nondet, "detail": detail})
+}
+
+pub fn cmd_outcomes(input: &str, output: &str, n: usize) {
+    util::quiet_panics();
+    let cases = util::read_ndjson(input);
+    let rows = util::par_map(cases, || (), move |_, i, case| replay_outcomes(i, case, n));
+    util::write_ndjson(output, &rows);
+    let bad = rows.iter().filter(|r| !r["ok"].as_bool().unwrap()).count();
+    let nd = rows.iter().filter(|r| r["nondeterministic"].as_bool().unwrap()).count();
+    println!("auth-outcomes: {} cases x {} builds, {} disagreements, {} nondeterministic", rows.len(), n, bad, nd);
+}
